@@ -365,16 +365,21 @@ theorem replaceChild_docInv (s : St) (p new old : Nat) (hi : Inv s) (hd : DocInv
             cases r2 <;> first | exact hd | exact h2
         | _ => exact hd
 
-theorem sAN_docInv (s s1 : St) (hd : DocInv s) (ht : TopLe s s1) (oldId : Option Nat) (a e : Nat) :
+theorem sAN_docInv (s s1 : St) (hd : DocInv s) (ht : TopLe s s1) (oldId : Option Nat) (a e : Nat) (en : Node) :
     DocInv (match s1.detach a with
-      | (s2, some x) => (s2.update e (Node.mapAttrs (· ++ [x])), (match oldId with | some o => Res.node o | none => Res.none_))
+      | (s2, some x) =>
+        if tooDeep s2 en x then (s, Res.err Exc.hierarchy) else
+        (s2.update e (Node.mapAttrs (· ++ [x])), (match oldId with | some o => Res.node o | none => Res.none_))
       | (_, none) => (s, Res.err Exc.notFound)).1 := by
   cases hd2 : s1.detach a with
   | mk s2 x =>
     cases x with
     | none => exact hd
     | some n =>
-      exact hd.of_topLe ((ht.trans (detach_topLe s1 s2 a (some n) hd2)).trans (update_attrs_topLe s2 e _))
+      show DocInv (if tooDeep s2 en n then (s, Res.err Exc.hierarchy) else _).1
+      split
+      · exact hd
+      · exact hd.of_topLe ((ht.trans (detach_topLe s1 s2 a (some n) hd2)).trans (update_attrs_topLe s2 e _))
 
 theorem setValue_attr_docInv (s : St) (hd : DocInv s) (n : Nat) (nn : Node) (hf : s.find n = some nn)
     (nm : Str) (sp : Bool) (hk : nn.kind = .attr nm sp) (items : List Node) (n' : Nat) :
@@ -489,7 +494,7 @@ theorem step_docInv (s : St) (op : Op) (hi : Inv s) (hd : DocInv s) : DocInv (st
         · exact hd
         · split
           · exact hd
-          · exact sAN_docInv s _ hd (detachAll_topLe (sameLocalIds en nm) s) _ a e
+          · exact sAN_docInv s _ hd (detachAll_topLe (sameLocalIds en nm) s) _ a e en
       · exact hd
     · exact hd
   | setValue n v =>
